@@ -398,17 +398,24 @@ def gen_hist(rng):
 # ---- running the implementation -----------------------------------------------------------
 
 def materialize(entries, top):
+    """creates the entries of a case; one the file system refuses because its path would exceed PATH_MAX (a long root plus a
+    long name) is left out - the model is told the tree that EXISTS (walk_tree), so nothing is assumed about it"""
+    import errno
     for ph, k in entries:
         p = os.path.join(top, bytes.fromhex(ph))
-        os.makedirs(os.path.dirname(p), exist_ok=True)
-        if k == 'D':
-            os.makedirs(p, exist_ok=True)
-        elif k == 'F':
-            open(p, 'wb').write(b'old ' + bytes.fromhex(ph)[-20:] + b'\n')
-        elif k == 'L':
-            os.symlink(b'.', p)
-        else:
-            os.mkfifo(p)
+        try:
+            os.makedirs(os.path.dirname(p), exist_ok=True)
+            if k == 'D':
+                os.makedirs(p, exist_ok=True)
+            elif k == 'F':
+                open(p, 'wb').write(b'old ' + bytes.fromhex(ph)[-20:] + b'\n')
+            elif k == 'L':
+                os.symlink(b'.', p)
+            else:
+                os.mkfifo(p)
+        except OSError as e:
+            if e.errno != errno.ENAMETOOLONG:
+                raise
 
 
 def walk_tree(top):
